@@ -86,10 +86,12 @@ func c01Feed(r *mon.Run, caseID string, sc any, g *rand.Rand, deps []*bridgesync
 	restarts := 0
 	for bi, b := range blocks {
 		if restartEvery > 0 && bi > 0 && bi%restartEvery == 0 {
-			if s, err = s.reopen(); err != nil {
+			ns, err := s.reopen()
+			if err != nil {
 				r.Violation("C01:reopen-error", caseID, err.Error(), sc)
 				return
 			}
+			s = ns
 			restarts++
 		}
 		if err := s.Process(b); err != nil {
